@@ -237,7 +237,9 @@ func basePlans(tier string) []mc.Plan {
 			for _, a := range []string{"m1", "m2"} {
 				for _, b := range metas {
 					bounds := []int{0, 1}
-					if cfg.Soft && tier == "thorough" {
+					if cfg.Soft && tier == "thorough" && (b == "none" || b == "m1") && a == "m1" {
+						// (each bound-2 scenario is ~2.6 M executions: the four combinations in which the
+						// second call carries nothing or the same key as the abandoned one)
 						bounds = []int{0, 1, 2}
 					}
 					ps = append(ps, mc.Plan{Scen: scenario(cfg, []call{{a, kind, true}, {b, "U", false}, {"m1", "U", false}}), Bounds: bounds, Split: len(bounds) > 2})
@@ -274,6 +276,6 @@ func plans(tier string) []mc.Plan {
 }
 
 func init() {
-	mc.Register(&mc.Check{ID: "C11", Plans: plans, Budget: map[string]int{"quick": 120, "thorough": 1200},
+	mc.Register(&mc.Check{ID: "C11", Plans: plans, Budget: map[string]int{"quick": 120, "thorough": 1500},
 		Notes: "C11 (engine part): sequences of three calls with/without metadata on one connection; the first call optionally abandoned by a canceller thread placed at every point (deviation bound 1-2), e.g. between its metadata packet and its invoke; oracle: handler r sees exactly the map attached to call r."})
 }
